@@ -21,8 +21,24 @@ Inductive sink := SinkInsensitive | SinkOrdered.
 Inductive vclass := VImmutable | VMutable | VUnknown.
 Inductive scope := ScModule | ScClass.
 (* root of the target of a store / mutating call *)
-Inductive root := RGlobal | RClass | RUnknown.
+Inductive root := RGlobal   (* module-level name of this module, alias of one, class name *)
+                | RModule   (* an imported module / imported object: `mod.attr = v`, `mod.d[k] = v` *)
+                | RClass    (* cls, type(self), self.__class__ *)
+                | RUnknown. (* call result, ... *)
 Inductive wmode := WRead | WWrite | WUnknownMode.
+(* ambient inputs: anything a run can read that is neither the deck nor the options *)
+Inductive nkind := NEnv       (* os.environ, getenv, cwd, home, host, platform *)
+                 | NArgv      (* sys.argv *)
+                 | NClock     (* time.*, datetime.now, file times *)
+                 | NRandom    (* random, uuid, urandom, pid, temporary names *)
+                 | NIdentity  (* id() / hash() called, or handed over as a key function *)
+                 | NListing   (* listdir, glob, iterdir, walk: file-system order *)
+                 | NOther.
+(* effects on the file system other than open() *)
+Inductive fkind := FPickleWrite  (* pickle/json/marshal dump: a cache or result file *)
+                 | FPickleRead   (* pickle load: state read back from an earlier run *)
+                 | FWriteCall    (* write_text, write_bytes, savetxt, ... *)
+                 | FFsChange.    (* unlink, rename, mkdir, rmtree, chmod, ... *)
 
 Inductive construct :=
 | CBinding (sc : scope) (v : vclass)
@@ -32,8 +48,8 @@ Inductive construct :=
 | CSetLoop (k : vkind) (s : sink)
 | CSetEscape
 | COpen (m : wmode)
-| CFileEffect
-| CNondet
+| CFileEffect (f : fkind)
+| CNondet (n : nkind)
 | CDynamic
 | CUnknown.
 
@@ -95,7 +111,10 @@ Definition is_set_loop (e : entry) : option (vkind * sink) :=
 Definition is_store (e : entry) : bool :=
   match e_c e with CStore _ | CGlobalDecl => true | _ => false end.
 Definition is_write (e : entry) : bool :=
-  match e_c e with COpen WWrite | COpen WUnknownMode | CFileEffect => true | _ => false end.
+  match e_c e with COpen WWrite | COpen WUnknownMode | CFileEffect _ => true | _ => false end.
+(* reads of ambient inputs and of state persisted by earlier runs *)
+Definition is_ambient (e : entry) : bool :=
+  match e_c e with CNondet _ | CFileEffect FPickleRead => true | _ => false end.
 Definition is_unknown (e : entry) : bool :=
   match e_c e with
   | CUnknown | CDynamic | CSetEscape | CStore RUnknown | COpen WUnknownMode
